@@ -162,6 +162,22 @@ def gobFloat32 (bits : Nat) : Bytes :=
     [1, UInt8.ofNat (10 + s), 0, 0, 0, 53]
       ++ beFixed 4 (((e : Int) - 126) % 4294967296).toNat ++ beFixed 8 ((two23 + m) * 2 ^ 40)
 
+/-- a finite `big.Float` of precision 53 given by sign bit value, exponent and 64-bit mantissa
+    word, as float32 bits — when it is exactly a float32 (normal or subnormal). -/
+def float32OfParts (s : Nat) (exp : Int) (mant : Nat) : Option Nat :=
+  if mant < two63 then none
+  else if -125 ≤ exp ∧ exp ≤ 128 then
+    if mant % 2 ^ 40 = 0 then some (s + (exp + 126).toNat * two23 + (mant / 2 ^ 40 - two23)) else none
+  else if -148 ≤ exp ∧ exp ≤ -126 then
+    if mant % 2 ^ (64 - (exp + 149).toNat) = 0 then some (s + mant / 2 ^ (64 - (exp + 149).toNat)) else none
+  else none
+
+/-- the finite case of `float32OfGob`: flags byte, the 4 exponent bytes, the 8 mantissa bytes. -/
+def float32OfFinite (fl : UInt8) (xs ms : Bytes) : Option Nat :=
+  if fl = 10 ∨ fl = 11 then
+    float32OfParts (if fl = 11 then two31 else 0) (wrapI32 (natOfBE xs : Nat)) (natOfBE ms)
+  else none
+
 /-- `TypedFloat.Float32()` restricted to byte strings that some non-NaN float32 produces through
     `gobFloat32` (decoding anything else needs rounding, which is not modelled: `none`).
     `len(Bytes) == 0` gives 0.0 as in the code. -/
@@ -175,17 +191,8 @@ def float32OfGob (bs : Bytes) : Option Nat :=
       else none
     else none
   | [v, fl, p0, p1, p2, p3, x0, x1, x2, x3, m0, m1, m2, m3, m4, m5, m6, m7] =>
-    if v = 1 ∧ p0 = 0 ∧ p1 = 0 ∧ p2 = 0 ∧ p3 = 53 ∧ (fl = 10 ∨ fl = 11) then
-      let s := if fl = 11 then two31 else 0
-      let exp : Int := wrapI32 (natOfBE [x0, x1, x2, x3] : Nat)
-      let mant := natOfBE [m0, m1, m2, m3, m4, m5, m6, m7]
-      if mant < two63 then none
-      else if -125 ≤ exp ∧ exp ≤ 128 then
-        if mant % 2 ^ 40 = 0 then some (s + (exp + 126).toNat * two23 + (mant / 2 ^ 40 - two23)) else none
-      else if -148 ≤ exp ∧ exp ≤ -126 then
-        let k := (exp + 149).toNat
-        if mant % 2 ^ (64 - k) = 0 then some (s + mant / 2 ^ (64 - k)) else none
-      else none
+    if v = 1 ∧ p0 = 0 ∧ p1 = 0 ∧ p2 = 0 ∧ p3 = 53 then
+      float32OfFinite fl [x0, x1, x2, x3] [m0, m1, m2, m3, m4, m5, m6, m7]
     else none
   | _ => none
 
@@ -195,30 +202,28 @@ def widen32 (bits : Nat) : Nat :=
   let s := f32Sign bits
   let e := f32Exp bits
   let m := f32Man bits
-  s * two63 +
+  two63 * s +
     (if e = 0 ∧ m = 0 then 0
-     else if e = 255 then 2047 * 2 ^ 52 + (if m = 0 then 0 else m * 2 ^ 29 % 2 ^ 51 + 2 ^ 51)
-     else if e = 0 then
-       let k := bitLen m
-       (k + 873) * 2 ^ 52 + m * 2 ^ (53 - k) % 2 ^ 52
-     else (e + 896) * 2 ^ 52 + m * 2 ^ 29)
+     else if e = 255 then 2 ^ 52 * 2047 + (if m = 0 then 0 else 2 ^ 29 * m % 2 ^ 51 + 2 ^ 51)
+     else if e = 0 then 2 ^ 52 * (bitLen m + 873) + 2 ^ (53 - bitLen m) * m % 2 ^ 52
+     else 2 ^ 52 * (e + 896) + 2 ^ 29 * m)
+
+/-- a float64 given by sign, biased exponent and mantissa field, as float32 bits — when it is
+    exactly a float32 (anything else needs rounding: `none`). -/
+def narrowParts (s e m : Nat) : Option Nat :=
+  if e = 0 ∧ m = 0 then some (two31 * s)
+  else if e = 2047 then
+    if m = 0 then some (two31 * s + two23 * 255)
+    else if m % 2 ^ 29 = 0 then some (two31 * s + two23 * 255 + (m / 2 ^ 29) % 2 ^ 22 + 2 ^ 22) else none
+  else if 897 ≤ e ∧ e ≤ 1150 then
+    if m % 2 ^ 29 = 0 then some (two31 * s + two23 * (e - 896) + m / 2 ^ 29) else none
+  else if 874 ≤ e ∧ e ≤ 896 then
+    if (2 ^ 52 + m) % 2 ^ (53 - (e - 873)) = 0 then some (two31 * s + (2 ^ 52 + m) / 2 ^ (53 - (e - 873))) else none
+  else none
 
 /-- `math.Float32bits(float32(math.Float64frombits(b)))` restricted to float64 values that are
-    exactly a float32 (anything else needs rounding: `none`). -/
-def narrow64 (b : Nat) : Option Nat :=
-  let s := b / two63 % 2
-  let e := b / 2 ^ 52 % 2048
-  let m := b % 2 ^ 52
-  if e = 0 ∧ m = 0 then some (s * two31)
-  else if e = 2047 then
-    if m = 0 then some (s * two31 + 255 * two23)
-    else if m % 2 ^ 29 = 0 then some (s * two31 + 255 * two23 + (m / 2 ^ 29) % 2 ^ 22 + 2 ^ 22) else none
-  else if 897 ≤ e ∧ e ≤ 1150 then
-    if m % 2 ^ 29 = 0 then some (s * two31 + (e - 896) * two23 + m / 2 ^ 29) else none
-  else if 874 ≤ e ∧ e ≤ 896 then
-    let k := e - 873
-    if (2 ^ 52 + m) % 2 ^ (53 - k) = 0 then some (s * two31 + (2 ^ 52 + m) / 2 ^ (53 - k)) else none
-  else none
+    exactly a float32. -/
+def narrow64 (b : Nat) : Option Nat := narrowParts (b / two63 % 2) (b / 2 ^ 52 % 2048) (b % 2 ^ 52)
 
 /-! ### encoding/base64, StdEncoding with padding -/
 
